@@ -54,3 +54,77 @@ Check decode_encode_routes :
       concat chunks = es /\
       Forall2 (reach_frame_ok c f nh ws (es <> [])) frames chunks.
 Print Assumptions decode_encode_routes.
+
+(* (4) A withdrawal of plain prefixes: the frames split the entry list into consecutive
+   chunks and from every frame the reader recovers the family and exactly the withdrawn
+   prefixes of its chunk.  Together with (3): splitting a large update neither drops,
+   duplicates nor reorders a prefix. *)
+Theorem split_preserves_multiset :
+  forall (p : profile) (c : codec) (f : N) (es : list pnlri) (frames : list (list N)),
+    encode_to p c (MUnreach f es) = Ok frames ->
+    fam_ok f -> Forall (plain (maxbits_of f)) es ->
+    exists chunks, concat chunks = es /\ Forall2 (unreach_frame_ok c f) frames chunks.
+Proof. exact C04_split_preserves_multiset. Qed.
+Check split_preserves_multiset :
+  forall (p : profile) (c : codec) (f : N) (es : list pnlri) (frames : list (list N)),
+    encode_to p c (MUnreach f es) = Ok frames ->
+    fam_ok f -> Forall (plain (maxbits_of f)) es ->
+    exists chunks, concat chunks = es /\ Forall2 (unreach_frame_ok c f) frames chunks.
+Print Assumptions split_preserves_multiset.
+
+(* (5) The same split property for NLRI of ANY family (labeled, VPN, and the families whose
+   NLRI enter the model as their wire bytes): every frame of a Reach is readable, carries the
+   family, the attributes as written, the expected next hop, and its NLRI field is exactly the
+   concatenation of the encodings of the entries of its chunk; the chunks concatenate to the
+   entry list. *)
+Theorem reach_frames_all_families :
+  forall (p : profile) (c : codec) (f : N) (nh : option (list N)) (attrs : list attr)
+         (es : list pnlri) (frames : list (list N)),
+    encode_to p c (MReach f nh attrs es) = Ok frames ->
+    Forall attr_wf attrs -> code_not 3 attrs -> code_not 14 attrs -> fam_ok f ->
+    match nh with Some b => blen b < 248 | None => True end ->
+    exists ws chunks,
+      wire_attrs (two_byte c) attrs = Ok ws /\
+      concat chunks = es /\
+      Forall2 (reach_frame_bytes p c f nh ws (es <> [])) frames chunks.
+Proof. exact C04_reach_frames. Qed.
+Check reach_frames_all_families :
+  forall (p : profile) (c : codec) (f : N) (nh : option (list N)) (attrs : list attr)
+         (es : list pnlri) (frames : list (list N)),
+    encode_to p c (MReach f nh attrs es) = Ok frames ->
+    Forall attr_wf attrs -> code_not 3 attrs -> code_not 14 attrs -> fam_ok f ->
+    match nh with Some b => blen b < 248 | None => True end ->
+    exists ws chunks,
+      wire_attrs (two_byte c) attrs = Ok ws /\
+      concat chunks = es /\
+      Forall2 (reach_frame_bytes p c f nh ws (es <> [])) frames chunks.
+Print Assumptions reach_frames_all_families.
+
+(* (6) ... and of an Unreach. *)
+Theorem unreach_frames_all_families :
+  forall (p : profile) (c : codec) (f : N) (es : list pnlri) (frames : list (list N)),
+    encode_to p c (MUnreach f es) = Ok frames -> fam_ok f ->
+    exists chunks, concat chunks = es /\ Forall2 (unreach_frame_bytes p c f) frames chunks.
+Proof. exact C04_unreach_frames. Qed.
+Check unreach_frames_all_families :
+  forall (p : profile) (c : codec) (f : N) (es : list pnlri) (frames : list (list N)),
+    encode_to p c (MUnreach f es) = Ok frames -> fam_ok f ->
+    exists chunks, concat chunks = es /\ Forall2 (unreach_frame_bytes p c f) frames chunks.
+Print Assumptions unreach_frames_all_families.
+
+(* (7) An OPEN with any capability list that encode_to accepts is one frame from which the
+   reader recovers version 4, the AS field (AS_TRANS for a four-octet AS number), the hold
+   time, the identifier and the capabilities, in order, as <code, value>; the optional
+   parameter and capability lengths tile the message exactly. *)
+Theorem open_roundtrip :
+  forall (p : profile) (c : codec) (asn hold rid : N) (caps : list cap) (frames : list (list N)),
+    encode_to p c (MOpen asn hold rid caps) = Ok frames ->
+    asn < 4294967296 -> hold < 65536 -> rid < 4294967296 -> Forall cap_wf caps ->
+    exists fr, frames = [fr] /\ open_ok (max_len c) asn hold rid caps fr.
+Proof. exact C04_open_roundtrip. Qed.
+Check open_roundtrip :
+  forall (p : profile) (c : codec) (asn hold rid : N) (caps : list cap) (frames : list (list N)),
+    encode_to p c (MOpen asn hold rid caps) = Ok frames ->
+    asn < 4294967296 -> hold < 65536 -> rid < 4294967296 -> Forall cap_wf caps ->
+    exists fr, frames = [fr] /\ open_ok (max_len c) asn hold rid caps fr.
+Print Assumptions open_roundtrip.
